@@ -326,6 +326,23 @@ func MgmtDestroy(slot int) Op {
 		})
 }
 
+// MgmtStrategySet / MgmtStrategyUnset are strategy-choice/set and strategy-choice/unset through the
+// real handlers of the management thread.
+func MgmtStrategySet(p, which string) Op {
+	st := mc
+	if which == "br" {
+		st = br
+	}
+	return mgmtOp("SetStrategy", fmt.Sprintf("MgmtStrategySet(%s,%s)", p, which), OpMeta{}, "strategy-choice", "set",
+		func() (*ndnmgmt.ControlArgs, uint64) {
+			return &ndnmgmt.ControlArgs{Name: nm(p), Strategy: &ndnmgmt.Strategy{Name: nm(st)}}, 1
+		})
+}
+func MgmtStrategyUnset(p string) Op {
+	return mgmtOp("UnsetStrategy", fmt.Sprintf("MgmtStrategyUnset(%s)", p), OpMeta{}, "strategy-choice", "unset",
+		func() (*ndnmgmt.ControlArgs, uint64) { return &ndnmgmt.ControlArgs{Name: nm(p)}, 1 })
+}
+
 // RibAddSlot / LookupFaces: a route for the face of a slot (Init), and which slots' faces a name
 // currently resolves to are visible through the ordinary Lookup.
 func RibAddSlot(p string, slot int, o, c, fl uint64) Op {
@@ -417,6 +434,7 @@ func UnsetStrategy(p string) Op {
 }
 func Lookup(n string) Op {
 	k := &Kept{Kind: "Lookup", Op: fmt.Sprintf("Lookup(%s)", n)}
+	again[k.Op] = func() string { return nhStr(table.FibStrategyTable.FindNextHopsEnc(nm(n))) }
 	return Op{k.Kind, k.Op, func(yield func()) string {
 		nh := table.FibStrategyTable.FindNextHopsEnc(nm(n))
 		k.keep(Kept{nh: nh, isNH: true})
@@ -427,6 +445,7 @@ func Lookup(n string) Op {
 }
 func LookupStrategy(n string) Op {
 	k := &Kept{Kind: "LookupStrategy", Op: fmt.Sprintf("LookupStrategy(%s)", n)}
+	again[k.Op] = func() string { return stStr(table.FibStrategyTable.FindStrategyEnc(nm(n))) }
 	return Op{k.Kind, k.Op, func(yield func()) string {
 		s := table.FibStrategyTable.FindStrategyEnc(nm(n))
 		k.keep(Kept{st: s})
@@ -434,6 +453,42 @@ func LookupStrategy(n string) Op {
 		k.Recheck("by the lookup thread after its next scheduling point")
 		return stStr(s)
 	}, k}
+}
+
+// DispatchProbe looks the faces of the given slots up in the dispatch table, one after the other
+// (a forwarding thread whose packets alternate between faces: incoming face, next hop, incoming
+// face, ... - fw/fw/thread.go asks dispatch.GetFace for the incoming face and for every next hop of
+// every packet). Like FaceProbe it reports only a face found under an id it does not carry: whether
+// a face is still found while its teardown overlaps is not judged (either answer is legal). The
+// probes matter through what they leave behind: the dispatch table is observed under every id once
+// all operations have completed. (The ids are fixed by the program, not taken from a preceding
+// lookup: the order in which a clean-up recomputes sibling prefixes is Go map order, and an
+// execution must be a function of the schedule alone.)
+func DispatchProbe(slots ...int) Op {
+	return Op{"FaceProbe", fmt.Sprintf("DispatchProbe(#%v)", slots), func(yield func()) string {
+		out := []string{}
+		for _, sl := range slots {
+			id := addedSlot[sl]
+			if d := dispatch.GetFace(id); d != nil && d.FaceID() != id {
+				out = append(out, fmt.Sprintf("dispatch[%d].FaceID()=%d", id, d.FaceID()))
+			}
+		}
+		return strings.Join(out, ",")
+	}, nil}
+}
+
+// TableProbe is the same on the face table (the management thread resolving FaceIds of commands).
+func TableProbe(slots ...int) Op {
+	return Op{"FaceProbe", fmt.Sprintf("TableProbe(#%v)", slots), func(yield func()) string {
+		out := []string{}
+		for _, sl := range slots {
+			id := addedSlot[sl]
+			if l := face.FaceTable.Get(id); l != nil && l.FaceID() != id {
+				out = append(out, fmt.Sprintf("table[%d].FaceID()=%d", id, l.FaceID()))
+			}
+		}
+		return strings.Join(out, ",")
+	}, nil}
 }
 
 func stStr(s enc.Name) string {
@@ -467,6 +522,82 @@ func ListRib() Op {
 		sort.Strings(out)
 		return strings.Join(out, ";")
 	}, nil}
+}
+
+// listStrategies renders the strategy-choice dataset (GetAllForwardingStrategies).
+func listStrategies() string {
+	out := []string{}
+	for _, e := range table.FibStrategyTable.GetAllForwardingStrategies() {
+		out = append(out, e.Name().String()+"="+stStr(e.GetStrategy()))
+	}
+	sort.Strings(out)
+	return strings.Join(out, ";")
+}
+
+// faceIDUniverse: every face id a scenario can have used (raw ids 1..4 of the route-only faces,
+// 10..13 handed out by the face table after a reset).
+var faceIDUniverse = []uint64{1, 2, 3, 4, 10, 11, 12, 13}
+
+// finalFaces observes the face table and the dispatch table under EVERY id of the universe, not
+// only under the ids of the faces still listed: a face that was torn down must be found under its
+// id in neither. The ids that are not listed in the face table are asked first (on a correct
+// implementation these lookups find nothing and leave nothing behind, so they are the observation
+// that disturbs least what the operations left in the tables).
+func finalFaces() string {
+	listed := map[uint64]bool{}
+	for _, l := range face.FaceTable.GetAll() {
+		listed[l.FaceID()] = true
+	}
+	res := map[uint64]string{}
+	for _, first := range []bool{true, false} {
+		for _, id := range faceIDUniverse {
+			if listed[id] == first {
+				continue
+			}
+			d := dispatch.GetFace(id)
+			l := face.FaceTable.Get(id)
+			r := ""
+			if d != nil {
+				r += fmt.Sprintf("dispatch(id=%d)", d.FaceID())
+			}
+			if l != nil {
+				r += fmt.Sprintf("table(id=%d)", l.FaceID())
+			}
+			if d != nil && l != nil && any(d) != any(l) {
+				r += "DIFFERENT-OBJECTS"
+			}
+			if listed[id] {
+				r += "listed"
+			}
+			if r != "" {
+				res[id] = r
+			}
+		}
+	}
+	out := []string{}
+	for _, id := range faceIDUniverse {
+		if r, ok := res[id]; ok {
+			out = append(out, fmt.Sprintf("%d:%s", id, r))
+		}
+	}
+	return strings.Join(out, ",")
+}
+
+// StaleFaces extracts from a final state (FinalFor) the ids under which the dispatch table or the
+// face table still returned a face that the face table no longer lists (used to name the symptom
+// of a final-state mismatch, not to judge).
+func StaleFaces(final string) []string {
+	var out []string
+	final = strings.TrimPrefix(final, "faces by id (asked first):")
+	if i := strings.Index(final, SecSep); i >= 0 {
+		final = final[:i]
+	}
+	for _, ent := range strings.Split(final, ",") {
+		if ent != "" && !strings.HasSuffix(ent, "listed") {
+			out = append(out, ent)
+		}
+	}
+	return out
 }
 
 // Scenario: initial sequential ops, then threads each running its ops in order.
@@ -516,23 +647,67 @@ func Setup(fib string, s Scenario) {
 
 var rvTransport *face.InternalTransport
 
+// again: for every lookup operation (by name) the same lookup as a plain read.
+var again = map[string]func() string{}
+
+// FinalFor is the observable final state of the tables after the operations of s: first every
+// lookup the threads of s issued is issued once more (per thread, its last lookup first - a
+// forwarding thread that repeats what it last asked, now that nothing is in flight any more, must
+// get the answer of the final tables; whatever an implementation remembers between two lookups
+// is most visible to exactly these), then the fixed universe of Final.
+func FinalFor(s Scenario) string {
+	ff := finalFaces()
+	var nhAgain, stAgain strings.Builder
+	for t, prog := range s.Threads {
+		for k := len(prog) - 1; k >= 0; k-- {
+			if f, ok := again[prog[k].Name]; ok {
+				w := &nhAgain
+				if prog[k].Kind == "LookupStrategy" {
+					w = &stAgain
+				}
+				fmt.Fprintf(w, "t%d %s={%s} ", t, prog[k].Name, f())
+			}
+		}
+	}
+	return "faces by id (asked first):" + ff + SecSep + "next hops (the threads' lookups repeated):" + nhAgain.String() + SecSep + "strategy choices (the threads' lookups repeated):" + stAgain.String() + SecSep + Final()
+}
+
+// SecSep separates the sections of a final state; every section is "<what it observes>:<value>".
+const SecSep = " | "
+
+// DiffSections names the sections in which two final states differ.
+func DiffSections(a, b string) []string {
+	sa, sb := strings.Split(a, SecSep), strings.Split(b, SecSep)
+	var out []string
+	for i := range sa {
+		if i >= len(sb) || sa[i] != sb[i] {
+			out = append(out, strings.SplitN(sa[i], ":", 2)[0])
+		}
+	}
+	return out
+}
+
 // Final is the observable final state of the tables.
 func Final() string {
-	var b strings.Builder
-	for _, n := range []string{"/", "/a", "/a/b", "/a/b/c", "/a/zz", "/zz", "/c", "/c/zz"} {
+	var nh, st strings.Builder
+	// (first, before any other lookup: the face and dispatch tables under every id)
+	ff := finalFaces()
+	for _, n := range []string{"/", "/a", "/a/b", "/a/b/c", "/a/zz", "/zz", "/c", "/c/zz", "/e", "/e/x", "/d", "/d/x", "/r"} {
 		// (plain reads: observing the final state keeps nothing)
-		fmt.Fprintf(&b, "%s=>{%s}/%s ", n, nhStr(table.FibStrategyTable.FindNextHopsEnc(nm(n))), stStr(table.FibStrategyTable.FindStrategyEnc(nm(n))))
+		fmt.Fprintf(&nh, "%s=>{%s} ", n, nhStr(table.FibStrategyTable.FindNextHopsEnc(nm(n))))
+		fmt.Fprintf(&st, "%s=>%s ", n, stStr(table.FibStrategyTable.FindStrategyEnc(nm(n))))
 	}
-	b.WriteString("| " + ListFib().Run(func() {}) + " | " + ListRib().Run(func() {}))
+	var b strings.Builder
+	b.WriteString("next hops:" + nh.String() + SecSep + "strategy choices in effect:" + st.String() + SecSep + "FIB entries:" + ListFib().Run(func() {}) + SecSep + "RIB routes:" + ListRib().Run(func() {}) + SecSep + "strategy choices listed:" + listStrategies())
 	// face table and dispatch table: registered ids (each face under its own id)
 	ids := []string{}
 	for _, l := range face.FaceTable.GetAll() {
 		ok := face.FaceTable.Get(l.FaceID()) == l && dispatch.GetFace(l.FaceID()) != nil
-		ids = append(ids, fmt.Sprintf("%d:%v", l.FaceID(), ok))
+		ids = append(ids, fmt.Sprintf("%d=%v", l.FaceID(), ok))
 	}
 	sort.Strings(ids)
-	b.WriteString(" | faces " + strings.Join(ids, ","))
-	fmt.Fprintf(&b, " | readvertised commands %d", rvTransport.VerifSendQueueLen())
+	b.WriteString(SecSep + "faces listed:" + strings.Join(ids, ",") + SecSep + "faces by id:" + ff)
+	fmt.Fprintf(&b, SecSep+"readvertised commands:%d", rvTransport.VerifSendQueueLen())
 	return b.String()
 }
 
@@ -559,6 +734,7 @@ func All(thorough bool) []Scenario {
 		"X4": {FibInsert("/a", 4, 8)},
 		"S1": {SetStrategy("/a")},
 		"S2": {SetStrategy("/a/b"), UnsetStrategy("/a/b")},
+		"S3": {SetStrategy("/a/b")}, // a choice that STAYS, set on a leaf entry with next hops and no choice of its own
 		"A1": {FaceAdd(0)},
 		"A2": {FaceAdd(1), FaceDownOwn(1)},
 		"F1": {FaceDown(1)},
@@ -693,12 +869,23 @@ func All(thorough bool) []Scenario {
 		// of EACH lookup a state between the operations overlapping it, not one state for two lookups
 		// of sibling prefixes; nested prefixes, recomputed top-down, are read by DL)
 		"DM": {Lookup("/d/x")},
+		// forwarding threads that look next hops up and hand packets to the faces (/a resolves to both
+		// faces, so the dispatch lookups alternate between two ids) / whose packets alternate between
+		// two faces, and the management thread resolving FaceIds: judged through the final tables
+		"DN": {Lookup("/a"), DispatchProbe(1, 0, 1)},
+		"DP": {DispatchProbe(0, 1, 0)},
+		"DQ": {DispatchProbe(1, 0, 1)},
+		"DR": {TableProbe(0, 1, 0, 1)},
+		// strategy choices through the real strategy-choice handlers, on the prefix whose only route
+		// belongs to the face being torn down (G9) and on one that keeps a route (GA)
+		"G9": {MgmtStrategySet("/a/b", "mc")},
+		"GA": {MgmtStrategySet("/a", "br"), MgmtStrategyUnset("/a")},
 	}
 	keysD := []string{}
 	for k := range progsD {
 		// (quick tier: the second face's teardown-then-lookup, the unguarded self-registration and the
 		// next-hop removal are left to the thorough tier)
-		if !thorough && (k == "D4" || k == "G5" || k == "G8") {
+		if !thorough && (k == "D4" || k == "G5" || k == "G8" || k == "DQ" || k == "DR" || k == "GA") {
 			continue
 		}
 		keysD = append(keysD, k)
@@ -719,10 +906,100 @@ func All(thorough bool) []Scenario {
 	for _, t := range triplesD {
 		out = append(out, Scenario{Name: "D:" + t[0] + "||" + t[1] + "||" + t[2], Init: initD, Threads: [][]Op{progsD[t[0]], progsD[t[1]], progsD[t[2]]}})
 	}
+	out = append(out, familyE(thorough)...)
 	return out
 }
 
-// Family is the scenario family a scenario name belongs to ("A", "B", "C", "D").
+// familyE: the life cycle of ONE FIB/strategy entry. Every operation of a scenario addresses the
+// same prefix /e, a leaf without children, and the scenarios are repeated for every shape the
+// entry can start in: {no entry, one next hop, two next hops} x {no strategy choice, a choice}
+// (next hops derived from RIB routes of faces 1 and 2, so that every removal path applies: route
+// unregistration, face teardown, fib/remove-nexthop). The thread programs are the single updates -
+// set / re-point / unset the choice, add / remove a route, insert / remove a next hop, tear a face
+// down - and the two-step programs that remove and re-create; all pairs, plus a reader. This is
+// where an entry is created by one operation while another prunes it, or is pruned between two
+// steps of an operation that looked it up first.
+func familyE(thorough bool) []Scenario {
+	type shape struct {
+		name string
+		init []Op
+	}
+	var shapes []shape
+	for _, hops := range []int{0, 1, 2} {
+		for _, st := range []bool{false, true} {
+			var init []Op
+			// a sibling entry that stays, so that the tables are never empty
+			init = append(init, RibAdd("/a", 1, 0, 1, CI))
+			if hops >= 1 {
+				init = append(init, RibAdd("/e", 1, 0, 1, 0))
+			}
+			if hops >= 2 {
+				init = append(init, RibAdd("/e", 2, 0, 2, 0))
+			}
+			if st {
+				init = append(init, SetStrategyTo("/e", "br"))
+			}
+			n := fmt.Sprintf("h%d", hops)
+			if st {
+				n += "s"
+			}
+			shapes = append(shapes, shape{n, init})
+		}
+	}
+	progs := map[string][]Op{
+		"W1": {SetStrategyTo("/e", "mc")},
+		"W2": {SetStrategyTo("/e", "br")},
+		"W3": {UnsetStrategy("/e")},
+		"W4": {RibRemove("/e", 1, 0)},
+		"W5": {FaceDown(1)},
+		"W6": {FibRemove("/e", 1)},
+		"W7": {RibAdd("/e", 2, 0, 3, 0)},
+		"W8": {FibInsert("/e", 3, 4)},
+		"W9": {RibRemove("/e", 1, 0), RibAdd("/e", 1, 0, 6, 0)},
+		"WA": {UnsetStrategy("/e"), SetStrategyTo("/e", "mc")},
+		"WB": {RibRemove("/e", 2, 0)},
+		"WL": {LookupStrategy("/e/x"), Lookup("/e/x")},
+	}
+	keys := []string{}
+	for k := range progs {
+		keys = append(keys, k)
+	}
+	sort.Strings(keys)
+	isStrategy := func(k string) bool { return k == "W1" || k == "W2" || k == "W3" || k == "WA" }
+	var out []Scenario
+	for _, sh := range shapes {
+		// quick tier: the shapes in which /e has at most one next hop (every removal is the removal of
+		// the last one); the two-hop shapes are left to the thorough tier
+		if !thorough && strings.HasPrefix(sh.name, "h2") {
+			continue
+		}
+		for i, a := range keys {
+			for _, b := range keys[i+1:] {
+				// quick tier: the pairs in which at least one side is a strategy update or the reader
+				// (pairs of two route/next-hop updates on one prefix are families A and B's subject and
+				// are repeated here, per shape, in the thorough tier); of the second "set" program W2 and
+				// the removal of face 2's route only W1||W2 (two sets colliding)
+				if !thorough && !isStrategy(a) && !isStrategy(b) && a != "WL" && b != "WL" {
+					continue
+				}
+				if !thorough && (a == "WB" || b == "WB" || ((a == "W2" || b == "W2") && a+b != "W1W2")) {
+					continue
+				}
+				out = append(out, Scenario{Name: "E:" + sh.name + ":" + a + "||" + b, Init: sh.init, Threads: [][]Op{progs[a], progs[b]}})
+			}
+		}
+		triples := [][3]string{{"W1", "W4", "WL"}, {"W3", "W6", "WL"}}
+		if thorough {
+			triples = append(triples, [3]string{"W1", "W5", "W7"}, [3]string{"WA", "W9", "WL"}, [3]string{"W2", "W3", "W4"}, [3]string{"W1", "W6", "W8"})
+		}
+		for _, t := range triples {
+			out = append(out, Scenario{Name: "E:" + sh.name + ":" + t[0] + "||" + t[1] + "||" + t[2], Init: sh.init, Threads: [][]Op{progs[t[0]], progs[t[1]], progs[t[2]]}})
+		}
+	}
+	return out
+}
+
+// Family is the scenario family a scenario name belongs to ("A", "B", "C", "D", "E").
 func Family(name string) string {
 	if len(name) > 2 && name[1] == ':' {
 		return name[:1]
